@@ -325,6 +325,8 @@ def run(ctx):
                 m._pre_for_reference = octets
                 ctx.count('encode_pre_encoded_segment')
         term = pdugen.msg_term(m)
+        import copy
+        m0 = copy.deepcopy(m)
         enc_before = getattr(m, 'encoding', None)
         r = real_encode(m, default)
         if r[0] == 0:
@@ -337,17 +339,17 @@ def run(ctx):
         ctx.count('encode_' + type(m).__name__)
         if r[0] != 0:
             ctx.violation(f'{type(m).__name__}.pdu() raised {common.EXN_NAMES[r[1]]} on a message inside the SMPP field space',
-                          {'function': 'encode', 'message': repr(m)[:900], 'default': default})
+                          {'function': 'encode', 'message': repr(m)[:900], 'message_pickle': core.pickle_b64(m0), 'default': default})
             continue
         exp, why = ref_bytes(m, enc_before, default, r[1:])
         if why == 'skip':
             ctx.count('wire_ambiguous_gsm_under_other_default_skipped')
         elif why:
-            ctx.violation(f'{type(m).__name__}: {why}', {'function': 'encode', 'message': repr(m)[:900], 'default': default, 'pdu_hex': bytes(r[1:]).hex()})
+            ctx.violation(f'{type(m).__name__}: {why}', {'function': 'encode', 'message': repr(m)[:900], 'message_pickle': core.pickle_b64(m0), 'default': default, 'pdu_hex': bytes(r[1:]).hex()})
         elif bytes(r[1:]) != exp:
             j = next((k for k, (a, b) in enumerate(zip(bytes(r[1:]), exp)) if a != b), min(len(exp), len(r) - 1))
             ctx.violation(f'{type(m).__name__}.pdu() differs from the reference encoding at octet {j}',
-                          {'function': 'encode', 'message': repr(m)[:900], 'default': default, 'pdu_hex': bytes(r[1:]).hex(), 'reference_hex': exp.hex()})
+                          {'function': 'encode', 'message': repr(m)[:900], 'message_pickle': core.pickle_b64(m0), 'default': default, 'pdu_hex': bytes(r[1:]).hex(), 'reference_hex': exp.hex()})
         if i < 1:
             ctx.sample({'message': repr(m)[:300], 'pdu_hex': bytes(r[1:]).hex()[:160]})
     # ---- decoding direction
@@ -391,6 +393,21 @@ def run(ctx):
 def replay(ctx, path):
     import json
     rp = json.load(open(path))
+    if rp.get('message_pickle'):
+        import copy
+        m = core.unpickle_b64(rp['message_pickle'])
+        default = rp.get('default', 'gsm0338')
+        m1 = copy.deepcopy(m)
+        pre = getattr(m, '_pre_for_reference', None)
+        r = real_encode(m1, default)
+        print('replay: message', repr(m)[:400])
+        if r[0] != 0:
+            print('replay: pdu() raised', common.EXN_NAMES[r[1]])
+            return 1
+        exp, why = ref_bytes(m, getattr(m, 'encoding', None), default, r[1:])
+        print('replay: pdu      ', bytes(r[1:]).hex()[:240])
+        print('replay: reference', exp.hex()[:240] if exp else why)
+        return 0 if (exp is not None and bytes(r[1:]) == exp) or why == 'skip' else 1
     if rp.get('function') == 'decode' and 'pdu_hex' in rp:
         d, obj = real_decode(list(bytes.fromhex(rp['pdu_hex'])), rp.get('default', 'gsm0338'))
         print('replay: from_pdu ->', repr(obj)[:600] if obj is not None else d)
